@@ -288,7 +288,7 @@ class Exec:
     def __init__(self, fns, consts, allocs, contracts, solver_timeout=20000):
         self.fns, self.consts, self.allocs, self.contracts = fns, consts, allocs, contracts
         self.stats = {'paths': 0, 'inlined': set(), 'contracts': set(), 'feas_checks': 0, 'bounds': {}}
-        self.timeout = solver_timeout; self.quick_ms = 300
+        self.timeout = solver_timeout; self.quick_ms = 300; self.tolerate_unsupported = True
         self.static_names = allocs.get('__static_names__', {})
 
     # --- function lookup: unification of the call's types with the impl header read from the source
@@ -374,6 +374,7 @@ class Exec:
 
     def const(self, st, fr, s):
         s = s.strip()
+        if s in fr.get('subst', {}) and str(fr['subst'][s]).isdigit(): return IntVal(int(fr['subst'][s]))     # const generic parameter
         if s in ('true', 'false'): return BoolVal(s == 'true')
         if s == '()': return UNIT
         m = re.match(r'(-?\d+)_(u|i)(size|8|16|32|64|128)$', s)
@@ -541,6 +542,11 @@ class Exec:
 
     # --- run a function to completion on all paths; yields (state, retval or Panic)
     def run(self, fn, args, st=None, subst=None):
+        self._depth = getattr(self, '_depth', 0) + 1
+        try: return self._run(fn, args, st, subst)
+        finally: self._depth -= 1
+
+    def _run(self, fn, args, st=None, subst=None):
         st = st or State()
         fr = {'fn': fn, 'locals': {}, 'bb': 'bb0', 'ret_to': None, 'subst': dict(subst or {})}
         for p, a in zip(fn.params, args): fr['locals'][p] = st.new_cell(a)
@@ -553,7 +559,9 @@ class Exec:
                     if nxt[0] == 'cont': work.append(nxt[1])
                     else: results.append((nxt[1], nxt[2])); self.stats['paths'] += 1
             except Unsupported as e:
-                raise Unsupported('%s  [in %s %s]' % (e, st.stack[-1]['fn'].name[-70:], st.stack[-1]['bb']))
+                msg = '%s  [in %s %s]' % (e, st.stack[-1]['fn'].name[-70:] if st.stack else '?', st.stack[-1]['bb'] if st.stack else '?')
+                if self._depth > 1 or not self.tolerate_unsupported: raise Unsupported(msg)
+                self.stats.setdefault('unsupported', []).append(msg)      # this path is abandoned and reported as undecided; the others go on
         return results
 
     def run_sub(self, fn, args, st, inherit_subst=False, subst=None):
